@@ -140,6 +140,26 @@ GROUPS["hier"] = dict(
                    ["reg", "persistent", 1, [["rem", 1], ["erem", 2, 1], ["desp", 3]], 0],
                    ["reg", "cleanup", 2, [["desp", 1], ["desp", 2], ["erem", 3, 1], ["rem", 2]], 0]]),
 )
+# reactors added with App::add_reactor (three closures of ONE type, registered at start-up) next to ordinary systems: C13 C01
+APP3 = [[["bc", 1]], [["bc", 1], ["eev", 1, 1]], [["res", 1], ["anyev", 1]]]
+GROUPS["app"] = dict(
+    subst=dict(Bundles="B_One", InitOps="NoOps", AppRegs="App_Three"),
+    mc_quick=C(NSys=1, NEnt=1, OpNames={"bc", "eev", "res", "run"}, MaxOps=2, Budget=3, MaxSteps=2),
+    mc_thorough=C(NSys=2, NEnt=2, OpNames={"bc", "eev", "res", "run", "sysev"}, MaxOps=2, Budget=4, MaxSteps=2),
+    gen=C(NSys=2, NEnt=2, OpNames={"bc", "eev", "res", "run", "sysev", "reg", "probe"}, Modes={"persistent"}, MaxOps=3, Budget=8, MaxSteps=3),
+    rnd=dict(cfg=dict(kinds=["plain", "plain"], nonce=0, nent=2, app=APP3), alphabet=["bc", "eev", "res", "run", "sysev", "reg", "probe"],
+             trigs=["bc", "eev", "res", "anyev"], modes=["persistent"], max_ops=3, budget=10, steps=3, ntypes=1, p_gcpoll=10, init=[]),
+)
+# the entity world reactor triggering itself for several other entities in one run (postponed, replayed in order): C16 C12
+GROUPS["ewburst"] = dict(
+    subst=dict(Bundles="B_One", InitOps="Init_EwBurst"),
+    mc_quick=C(NSys=1, NER=1, NEnt=3, NVal=1, OpNames={"mut", "eev"}, MaxOps=3, Budget=4, MaxSteps=2),
+    mc_thorough=C(NSys=1, NER=1, NEnt=3, NVal=2, OpNames={"mut", "eev", "trig", "setlocal", "erem"}, MaxOps=3, Budget=5, MaxSteps=2),
+    gen=C(NSys=1, NER=1, NEnt=3, NVal=2, OpNames={"mut", "eev", "trig", "setlocal", "erem", "eadd", "desp"}, MaxOps=4, Budget=10, MaxSteps=3),
+    rnd=dict(cfg=dict(kinds=["plain"], nonce=0, nent=3, neworld=1), alphabet=["mut", "eev", "trig", "setlocal", "erem", "eadd", "mut", "eev", "probe"],
+             trigs=["bc"], max_ops=4, budget=14, steps=3, ntypes=1, nvals=2, p_gcpoll=5,
+             init=[["ins", 1, 1, 1], ["ins", 2, 1, 1], ["ins", 3, 1, 1], ["eadd", 1, 1, 1], ["eadd", 1, 2, 2], ["eadd", 1, 3, 1]]),
+)
 # long trees (dozens of commands in one flush): random programs only, validated by TraceProps and TraceConf
 GROUPS["long"] = dict(
     rnd=dict(cfg=dict(kinds=["plain", "plain", "plain"], nonce=0, nent=1), alphabet=["run", "sysev", "bc", "eev", "probe"],
@@ -182,7 +202,7 @@ PROP_ENUMS = {
 
 # which groups decide which property; the first group is the property's "home"
 PROP_GROUPS = {
-    "C01": ["reg", "ev", "comp"],
+    "C01": ["reg", "ev", "comp", "app"],
     "C02": ["run", "ev", "long", "mix"],
     "C03": ["ev", "mix", "burst", "erburst"],
     "C04": ["ev", "run"],
@@ -193,10 +213,10 @@ PROP_GROUPS = {
     "C09": ["run", "ev", "burst", "mix"],
     "C11": ["run", "reg", "mix"],
     "C12": ["run", "burst", "ev", "erburst"],
-    "C13": ["run", "reg", "long"],
+    "C13": ["run", "reg", "long", "app"],
     "C14": ["comp"],
     "C15": ["reg"],
-    "C16": ["world"],
+    "C16": ["world", "ewburst"],
     "C18": ["reg", "mix", "hier"],
 }
 
